@@ -139,9 +139,10 @@ fn tiling_case(ctx: &mut Ctx, monotone: bool) {
         cfg.put(&mut args);
         let edges = poly.edges();
         put_edges(&mut args, &edges);
-        let tag = format!("tiling {} {}", poly.kind, ENTRY_NAMES[cfg.entry]);
+        let hist = History::gen(rng);
+        let tag = format!("tiling {} {} {}", poly.kind, ENTRY_NAMES[cfg.entry], hist.tag());
         (args, tag, move || {
-            let mut tess = FillTessellator::new();
+            let mut tess = hist.tessellator();
             let mut mesh = Mesh::new();
             let res = run_fill(&mut tess, &poly, &cfg, &mut mesh);
             let mut o = Out::new();
